@@ -9,6 +9,7 @@ import (
 	"github.com/MichaelMure/git-bug/cache"
 	"github.com/MichaelMure/git-bug/entity"
 	"github.com/MichaelMure/git-bug/query"
+	"github.com/MichaelMure/git-bug/repository"
 )
 
 func init() { props["C12"] = runC12 }
@@ -326,48 +327,117 @@ func lowerPairs(vals []string) [][]string {
 
 // (iii) evaluation over populations through RepoCacheBug.Query
 func c12Eval(c *runCtx, names, labels, titles []string) {
-	P := c.pick(3, 20)
+	P := c.pick(6, 20)
 	for pi := 0; pi < P; pi++ {
 		r := c.rng.fork()
-		repo := newMock()
-		rc := mustCache(repo)
+		// every other population is written on two replicas and brought together by a pull: the two
+		// sets of clocks run side by side, so creation and edit Lamport times tie and the
+		// documented tie-break (the timestamps) decides the order
+		twoSided := pi%2 == 1
+		var rc, rcA *cache.RepoCache
+		if twoSided {
+			remote, _ := newGoGit("c12remote", true)
+			repoA, _ := newGoGit("c12a", false)
+			repoB, _ := newGoGit("c12b", false)
+			for _, rp := range []repository.TestedRepo{repoA, repoB} {
+				if err := rp.AddRemote("origin", remote.GetLocalRemote()); err != nil {
+					panic(err)
+				}
+			}
+			rcA, rc = mustCache(repoA), mustCache(repoB)
+			defer remote.Close()
+		} else {
+			rc = mustCache(newMock())
+			rcA = rc
+		}
 		var idents []*cache.IdentityCache
 		for i, n := range []string{"René Descartes", "bob", "Alice B"} {
-			ic, err := rc.Identities().NewRaw(n, "x@example.com", []string{"", "rene", "BOB"}[i], "", nil, nil)
+			ic, err := rcA.Identities().NewRaw(n, "x@example.com", []string{"", "rene", "BOB"}[i], "", nil, nil)
 			if err != nil {
 				panic(err)
 			}
 			idents = append(idents, ic)
 		}
-		rc.SetUserIdentity(idents[0])
+		rcA.SetUserIdentity(idents[0])
+		identsB := idents
+		if twoSided {
+			if _, err := rcA.Push("origin"); err != nil {
+				panic(err)
+			}
+			// a pull needs a user identity (for merge commits) before the shared ones have arrived
+			own, err := rc.Identities().NewRaw("puller", "p@example.com", "", "", nil, nil)
+			if err != nil {
+				panic(err)
+			}
+			rc.SetUserIdentity(own)
+			if err := rc.Pull("origin"); err != nil {
+				panic(err)
+			}
+			identsB = nil
+			for _, ic := range idents {
+				ib, err := rc.Identities().Resolve(ic.Id())
+				if err != nil {
+					panic(err)
+				}
+				identsB = append(identsB, ib)
+			}
+			rc.SetUserIdentity(identsB[0])
+		}
 		nb := r.rangeInt(10, c.pick(30, 60))
 		t := int64(1_600_000_000)
+		usedTick := map[int64]bool{}
+		tick := func() int64 {
+			if twoSided {
+				// timestamps in no particular relation to the clocks, and all different: among bugs
+				// equal in clock and timestamp the order is unspecified (sort.Sort is not stable)
+				for {
+					u := 1_600_000_000 + int64(r.intn(4000))
+					if !usedTick[u] {
+						usedTick[u] = true
+						return u
+					}
+				}
+			}
+			t += int64(r.intn(3))
+			return t
+		}
 		for i := 0; i < nb; i++ {
-			a := pickOne(r, idents)
+			side, ids := rcA, idents
+			if twoSided && r.chance(1, 2) {
+				side, ids = rc, identsB
+			}
+			a := pickOne(r, ids)
 			title := pickOne(r, titles) + " " + pickOne(r, []string{"one", "Two", "crash again", "ünï"})
 			var md map[string]string
 			if r.chance(1, 3) {
 				md = map[string]string{pickOne(r, mdKeyPool[:4]): pickOne(r, []string{"v", "42", "https://example.com/x?y=1", "a b"})}
 			}
-			t += int64(r.intn(3))
-			b, _, err := rc.Bugs().NewRaw(a.Identity, t, title, "message", nil, md)
+			b, _, err := side.Bugs().NewRaw(a.Identity, tick(), title, "message", nil, md)
 			if err != nil {
 				panic(err)
 			}
 			for k := 0; k < r.intn(4); k++ {
-				t += int64(r.intn(3))
 				switch r.intn(4) {
 				case 0:
-					b.AddCommentRaw(pickOne(r, idents).Identity, t, "comment", nil, nil)
+					b.AddCommentRaw(pickOne(r, ids).Identity, tick(), "comment", nil, nil)
 				case 1:
-					b.ForceChangeLabelsRaw(pickOne(r, idents).Identity, t, []string{pickOne(r, labels)}, nil, nil)
+					b.ForceChangeLabelsRaw(pickOne(r, ids).Identity, tick(), []string{pickOne(r, labels)}, nil, nil)
 				case 2:
-					b.CloseRaw(pickOne(r, idents).Identity, t, nil)
+					b.CloseRaw(pickOne(r, ids).Identity, tick(), nil)
 				case 3:
-					b.SetTitleRaw(pickOne(r, idents).Identity, t, pickOne(r, titles)+" retitled", nil)
+					b.SetTitleRaw(pickOne(r, ids).Identity, tick(), pickOne(r, titles)+" retitled", nil)
 				}
 			}
 			b.CommitAsNeeded()
+		}
+		if twoSided {
+			if _, err := rcA.Push("origin"); err != nil {
+				panic(err)
+			}
+			if err := rc.Pull("origin"); err != nil {
+				panic(err)
+			}
+			rcA.Close()
 		}
 		// population as the cache sees it
 		var idj []map[string]any
@@ -393,6 +463,10 @@ func c12Eval(c *runCtx, names, labels, titles []string) {
 		allVals := append(append(append([]string{}, names...), labels...), titles...)
 		for k := 0; k < Q; k++ {
 			s, _ := randStructQuery(r, append(names, string(ids[0])[:5], strings.ToUpper(string(ids[1])[:4])), labels, titles)
+			if twoSided && !strings.Contains(s, "sort:") && r.chance(1, 2) {
+				// where clocks tie, ask for the order that the timestamps must decide
+				s = strings.TrimSpace(s + " sort:" + pickOne(r, []string{"edit", "edit-asc", "edit-desc", "creation-asc"}))
+			}
 			q, err := query.Parse(s)
 			if err != nil {
 				continue
@@ -503,22 +577,34 @@ func c12Eval(c *runCtx, names, labels, titles []string) {
 				case query.OrderById:
 					inOrder = a.Id() <= b.Id()
 				case query.OrderByCreation:
-					inOrder = a.CreateLamportTime <= b.CreateLamportTime
+					inOrder = a.CreateLamportTime < b.CreateLamportTime || a.CreateLamportTime == b.CreateLamportTime && a.CreateUnixTime <= b.CreateUnixTime
 				default:
-					inOrder = a.EditLamportTime <= b.EditLamportTime
+					inOrder = a.EditLamportTime < b.EditLamportTime || a.EditLamportTime == b.EditLamportTime && a.EditUnixTime <= b.EditUnixTime
 				}
 				if q.OrderDirection == query.OrderDescending {
 					switch q.OrderBy {
 					case query.OrderById:
 						inOrder = a.Id() >= b.Id()
 					case query.OrderByCreation:
-						inOrder = a.CreateLamportTime >= b.CreateLamportTime
+						inOrder = a.CreateLamportTime > b.CreateLamportTime || a.CreateLamportTime == b.CreateLamportTime && a.CreateUnixTime >= b.CreateUnixTime
 					default:
-						inOrder = a.EditLamportTime >= b.EditLamportTime
+						inOrder = a.EditLamportTime > b.EditLamportTime || a.EditLamportTime == b.EditLamportTime && a.EditUnixTime >= b.EditUnixTime
+					}
+					if a.EditLamportTime == b.EditLamportTime || a.CreateLamportTime == b.CreateLamportTime {
+						c.count("eval-adjacent-clock-ties")
 					}
 				}
+				if q.OrderBy == query.OrderByEdit && a.EditLamportTime == b.EditLamportTime {
+					c.count("eval-edit-order-decided-by-timestamp")
+					if (a.CreateUnixTime < b.CreateUnixTime) != (a.EditUnixTime < b.EditUnixTime) {
+						c.count("eval-edit-order-decided-by-timestamp-against-creation-timestamp")
+					}
+				}
+				if q.OrderBy == query.OrderByCreation && a.CreateLamportTime == b.CreateLamportTime {
+					c.count("eval-creation-order-decided-by-timestamp")
+				}
 				if !inOrder {
-					c.violation(c.nCases, "C12/unsorted", fmt.Sprintf("result of %q is not sorted by the requested key and direction", s), nil)
+					c.violation(c.nCases, "C12/unsorted", fmt.Sprintf("result of %q is not sorted by the requested key (clock, then timestamp) and direction", s), nil)
 					break
 				}
 			}
